@@ -172,6 +172,76 @@ theorem decode_of_encode {a : Acc} {tbl : Option Tbl} {v : Nat} {m : List Nat} {
 theorem toBool_map {α β} (x : R α) (f : α → β) : (x.map f).toBool = x.toBool := by
   cases x <;> rfl
 
+/-! ### the concrete input of the examples
+
+The GC-balanced order-2 accessor of the docstrings (`gcBalanced2`), start vertex 1 (`AC`), no table,
+the message `01010101`; `vt_length = 5`.  The `example`s beside the theorems instantiate every
+hypothesis on it (so no theorem is vacuous); where a hypothesis is "the generated `encode` returned
+`r`", it is discharged by `gc_encode_normal` / `gc_encode_fast` (the tie plus kernel evaluation of the
+model; the generated code itself is not evaluated). -/
+
+theorem gc_wf : gcBalanced2.WF := by unfold Acc.WF; decide +kernel
+theorem gc_lt : (1 : Nat) < gcBalanced2.size := by decide +kernel
+theorem gc_good : gcBalanced2.GoodFrom ((1 : Nat) : Int) :=
+  C03_goodFrom 2 2 _ (by decide) (by decide) (by decide) _ _
+    (show connectCodingGraph 2 #[false, true, true, false, true, false, false, true,
+      true, false, false, true, false, true, true, false] 2 = .ok ([1, 2, 4, 7, 8, 11, 13, 14], gcBalanced2) by
+      decide +kernel) 1 (by decide)
+
+theorem noDeg3From_of_goodFrom {a : Acc} {v : Int} (hg : a.GoodFrom v)
+    (h : ∀ u : Nat, u < a.size → a.outDeg (u : Int) ≠ 3) : a.NoDeg3From v := by
+  intro u hu
+  obtain ⟨⟨h0, h1⟩, _⟩ := hg u hu
+  obtain ⟨k, rfl⟩ := Int.eq_ofNat_of_zero_le h0
+  exact h k (by exact_mod_cast h1)
+
+theorem gc_noDeg3 : gcBalanced2.NoDeg3From ((1 : Nat) : Int) :=
+  noDeg3From_of_goodFrom gc_good (by decide +kernel)
+theorem gc_distinct : AllDistinct gcBalanced2 none := fun v => distinctKeys_none _ v
+theorem msg_bits : IsBits [0, 1, 0, 1, 0, 1, 0, 1] := by unfold IsBits; decide
+
+/-- a shuffle table for the table-independence example: every row is the permutation `3 1 0 2`. -/
+def gcTable : Tbl := Array.replicate 16 #[3, 1, 0, 2]
+theorem gcTable_ok : TblOK (some gcTable) gcBalanced2 := by
+  intro t h
+  cases h
+  exact ⟨by decide +kernel, by decide +kernel⟩
+
+/-- `encode([0,1,0,1,0,1,0,1], accessor, 1, vt_length=5)` of the generated code returns
+`("TCTCTCT", "TAAGC")`. -/
+theorem gc_encode_normal :
+    Gen.encode 200 (bitsPV [0, 1, 0, 1, 0, 1, 0, 1]) (accPV gcBalanced2) (.int 1) (.bool false) (.int 5)
+      PV.none (.bool false) (.bool false) = .ok (.tup [.str "TCTCTCT".toList, .str "TAAGC".toList]) :=
+  (tie_encode gcBalanced2 none 1 _ false 5 200 false gc_wf gc_lt (tblOK_none _) (isBits_le_one msg_bits)
+    (by decide)).trans
+    (by rw [show encode gcBalanced2 none ((1 : Nat) : Int) [0, 1, 0, 1, 0, 1, 0, 1] false 5 200 =
+          .ok ("TCTCTCT".toList, some "TAAGC".toList) by decide +kernel]; rfl)
+
+/-- … without a check it returns `"TCTCTCT"`. -/
+theorem gc_encode_normal0 :
+    Gen.encode 200 (bitsPV [0, 1, 0, 1, 0, 1, 0, 1]) (accPV gcBalanced2) (.int 1) (.bool false) (.int 0)
+      PV.none (.bool false) (.bool false) = .ok (.str "TCTCTCT".toList) :=
+  (tie_encode gcBalanced2 none 1 _ false 0 200 false gc_wf gc_lt (tblOK_none _) (isBits_le_one msg_bits)
+    (by decide)).trans
+    (by rw [show encode gcBalanced2 none ((1 : Nat) : Int) [0, 1, 0, 1, 0, 1, 0, 1] false 0 200 =
+          .ok ("TCTCTCT".toList, none) by decide +kernel]; rfl)
+
+/-- … and with `is_faster=True` it returns `("AGAGAGAG", "AAATA")`. -/
+theorem gc_encode_fast :
+    Gen.encode 200 (bitsPV [0, 1, 0, 1, 0, 1, 0, 1]) (accPV gcBalanced2) (.int 1) (.bool true) (.int 5)
+      PV.none (.bool false) (.bool false) = .ok (.tup [.str "AGAGAGAG".toList, .str "AAATA".toList]) :=
+  (tie_encode gcBalanced2 none 1 _ true 5 200 false gc_wf gc_lt (tblOK_none _) (isBits_le_one msg_bits)
+    (by decide)).trans
+    (by rw [show encode gcBalanced2 none ((1 : Nat) : Int) [0, 1, 0, 1, 0, 1, 0, 1] true 5 200 =
+          .ok ("AGAGAGAG".toList, some "AAATA".toList) by decide +kernel]; rfl)
+
+theorem gc_set_vt : Gen.set_vt 12 (cstr "TCTCTCT".toList) (.int 5) = .ok (cstr "TAAGC".toList) :=
+  (tie_set_vt _ 5 12 (by decide) (by decide)).trans
+    (by rw [show setVt "TCTCTCT".toList 5 = .ok "TAAGC".toList by decide +kernel]; rfl)
+theorem gc_set_vt' : Gen.set_vt 12 (cstr "TCTCTAT".toList) (.int 5) = .ok (cstr "GAAGC".toList) :=
+  (tie_set_vt _ 5 12 (by decide) (by decide)).trans
+    (by rw [show setVt "TCTCTAT".toList 5 = .ok "GAAGC".toList by decide +kernel]; rfl)
+
 end SwCor
 
 open SwCor
@@ -207,6 +277,15 @@ theorem gen_C01_roundtrip (a : Acc) (tbl : Option Tbl) (v : Nat) (m : List Nat) 
     · omega
     · exact ⟨c', hc, (hne c' hc).1⟩
 
+example (r : PV) (h : Gen.encode 200 (bitsPV [0, 1, 0, 1, 0, 1, 0, 1]) (accPV gcBalanced2) (.int 1) (.bool true)
+      (.int 5) PV.none (.bool false) (.bool true) = .ok r) :
+    ∃ (s : List Char) (c : Option (List Char)), r = encResultPV (s, c) ∧ s.length + 1 ≤ 200 ∧
+      (5 = 0 → c = none) ∧ (0 < 5 → ∃ c', c = some c' ∧ c'.length = 5) ∧
+      ∀ (fuel' : Nat) (vb' : Bool), 4 * s.length + 2 * 5 + 10 ≤ fuel' →
+        Gen.decode fuel' (cstr s) (.int 8) (accPV gcBalanced2) (.int 1) (.bool true) (chkPV c) PV.none
+          (.bool vb') = .ok (bitsPV [0, 1, 0, 1, 0, 1, 0, 1]) :=
+  gen_C01_roundtrip gcBalanced2 none 1 _ true 5 200 true r gc_wf gc_lt (tblOK_none _) msg_bits (by decide) h
+
 /-- arbitrary-precision mode (`is_faster=False`), any mixture of out-degrees, any table, with or
 without check — `C01_normal` about the generated code. -/
 theorem gen_C01_normal (a : Acc) (tbl : Option Tbl) (v : Nat) (m : List Nat) (n fuel : Nat) (vb : Bool)
@@ -220,6 +299,15 @@ theorem gen_C01_normal (a : Acc) (tbl : Option Tbl) (v : Nat) (m : List Nat) (n 
           (tblPV tbl) (.bool vb') = .ok (bitsPV m) :=
   gen_C01_roundtrip a tbl v m false n fuel vb r ha hv ht hm hf h
 
+/-- the docstring round trip, through the generated code: `decode("TCTCTCT", 8, …, vt_check="TAAGC")`. -/
+example : Gen.decode 48 (.str "TCTCTCT".toList) (.int 8) (accPV gcBalanced2) (.int 1) (.bool false)
+    (.str "TAAGC".toList) PV.none (.bool true) = .ok (bitsPV [0, 1, 0, 1, 0, 1, 0, 1]) := by
+  obtain ⟨s, c, hr, _, _, _, hd⟩ := gen_C01_normal gcBalanced2 none 1 _ 5 200 false _ gc_wf gc_lt (tblOK_none _)
+    msg_bits (by decide) gc_encode_normal
+  cases c with
+  | none => cases hr
+  | some c => cases hr; exact hd 48 true (by decide)
+
 /-- fast mode (`is_faster=True`; an `.ok` result of `encode` already implies that no out-degree-3
 vertex was met), including odd message lengths — `C01_fast` about the generated code. -/
 theorem gen_C01_fast (a : Acc) (tbl : Option Tbl) (v : Nat) (m : List Nat) (n fuel : Nat) (vb : Bool)
@@ -232,6 +320,14 @@ theorem gen_C01_fast (a : Acc) (tbl : Option Tbl) (v : Nat) (m : List Nat) (n fu
         Gen.decode fuel' (cstr s) (.int (m.length : Int)) (accPV a) (.int (v : Int)) (.bool true) (chkPV c)
           (tblPV tbl) (.bool vb') = .ok (bitsPV m) :=
   gen_C01_roundtrip a tbl v m true n fuel vb r ha hv ht hm hf h
+
+example : Gen.decode 52 (.str "AGAGAGAG".toList) (.int 8) (accPV gcBalanced2) (.int 1) (.bool true)
+    (.str "AAATA".toList) PV.none (.bool false) = .ok (bitsPV [0, 1, 0, 1, 0, 1, 0, 1]) := by
+  obtain ⟨s, c, hr, _, _, _, hd⟩ := gen_C01_fast gcBalanced2 none 1 _ 5 200 false _ gc_wf gc_lt (tblOK_none _)
+    msg_bits (by decide) gc_encode_fast
+  cases c with
+  | none => cases hr
+  | some c => cases hr; exact hd 52 false (by decide)
 
 /-- the case `vt_length = 0` spelled out, either mode: `encode` returns a `str`, and `decode` of it
 with `vt_check=None` returns the message; the decoder's fuel bound is in terms of the encoder's. -/
@@ -249,6 +345,13 @@ theorem gen_C01_nocheck (a : Acc) (tbl : Option Tbl) (v : Nat) (m : List Nat) (f
   subst hc
   exact ⟨s, hr, hd fuel' vb' (by omega)⟩
 
+example : Gen.decode 806 (.str "TCTCTCT".toList) (.int 8) (accPV gcBalanced2) (.int 1) (.bool false) PV.none
+    PV.none (.bool false) = .ok (bitsPV [0, 1, 0, 1, 0, 1, 0, 1]) := by
+  obtain ⟨s, hr, hd⟩ := gen_C01_nocheck gcBalanced2 none 1 _ false 200 806 false false _ gc_wf gc_lt
+    (tblOK_none _) msg_bits (by decide) (by decide) gc_encode_normal0
+  cases hr
+  exact hd
+
 /-- the case `vt_length > 0` spelled out, either mode: `encode` returns the pair `(strand, check)`,
 the check has `vt_length` symbols, and `decode` of the strand with that check returns the message. -/
 theorem gen_C01_check (a : Acc) (tbl : Option Tbl) (v : Nat) (m : List Nat) (fast : Bool)
@@ -265,6 +368,13 @@ theorem gen_C01_check (a : Acc) (tbl : Option Tbl) (v : Nat) (m : List Nat) (fas
   subst hc
   exact ⟨s, c', hr, hcl, hd fuel' vb' (by omega)⟩
 
+example : Gen.decode 816 (.str "AGAGAGAG".toList) (.int 8) (accPV gcBalanced2) (.int 1) (.bool true)
+    (.str "AAATA".toList) PV.none (.bool true) = .ok (bitsPV [0, 1, 0, 1, 0, 1, 0, 1]) := by
+  obtain ⟨s, c, hr, _, hd⟩ := gen_C01_check gcBalanced2 none 1 _ true 5 200 816 false true _ gc_wf gc_lt
+    (tblOK_none _) msg_bits (by decide) (by decide) (by decide) gc_encode_fast
+  cases hr
+  exact hd
+
 /-- on a graph in which every vertex reachable from the start has an arc and can reach a branching
 vertex, the generated `encode` returns in normal mode, for every fuel from `L·|V| + 1` (and
 `2·vt_length + 3`) on — `C01_total_normal` about the generated code. -/
@@ -279,6 +389,13 @@ theorem gen_C01_total_normal (a : Acc) (tbl : Option Tbl) (v : Nat) (m : List Na
   rw [Nat.add_sub_cancel' hfe] at h'
   exact ⟨s, c, by rw [tie_encode a tbl v m false n fuel vb ha hv ht (isBits_le_one hm) hf, h']; rfl⟩
 
+/-- `encodeFuel gcBalanced2 m = 8 · 16 + 1 = 129`. -/
+example : ∃ (s : List Char) (c : Option (List Char)),
+    Gen.encode 129 (bitsPV [0, 1, 0, 1, 0, 1, 0, 1]) (accPV gcBalanced2) (.int 1) (.bool false) (.int 5) PV.none
+      (.bool false) (.bool false) = .ok (encResultPV (s, c)) :=
+  gen_C01_total_normal gcBalanced2 none 1 _ 5 129 false gc_wf gc_lt (tblOK_none _) msg_bits gc_good
+    (by decide) (by decide +kernel)
+
 /-- same in fast mode on graphs without out-degree 3 — `C01_total_fast` about the generated code. -/
 theorem gen_C01_total_fast (a : Acc) (tbl : Option Tbl) (v : Nat) (m : List Nat) (n fuel : Nat)
     (vb : Bool) (ha : a.WF) (hv : v < a.size) (ht : TblOK tbl a) (hm : IsBits m)
@@ -289,6 +406,12 @@ theorem gen_C01_total_fast (a : Acc) (tbl : Option Tbl) (v : Nat) (m : List Nat)
         (.bool false) (.bool vb) = .ok (encResultPV (s, c)) := by
   obtain ⟨s, c, h⟩ := encode_total_fast a tbl v m n fuel hm hg h3 hfe
   exact ⟨s, c, by rw [tie_encode a tbl v m true n fuel vb ha hv ht (isBits_le_one hm) hf, h]; rfl⟩
+
+example : ∃ (s : List Char) (c : Option (List Char)),
+    Gen.encode 129 (bitsPV [0, 1, 0, 1, 0, 1, 0, 1]) (accPV gcBalanced2) (.int 1) (.bool true) (.int 5) PV.none
+      (.bool false) (.bool false) = .ok (encResultPV (s, c)) :=
+  gen_C01_total_fast gcBalanced2 none 1 _ 5 129 false gc_wf gc_lt (tblOK_none _) msg_bits gc_good gc_noDeg3
+    (by decide) (by decide +kernel)
 
 /-- totality and round trip together: on such a graph `decode(encode(m)) = m` for the generated code,
 with fuels that depend on the inputs only. -/
@@ -315,6 +438,14 @@ theorem gen_C01_total_roundtrip (a : Acc) (tbl : Option Tbl) (v : Nat) (m : List
   rw [tie_encode a tbl v m fast n fuel vb ha hv ht (isBits_le_one hm) hf, he]
   rfl
 
+example : ∃ (s : List Char) (c : Option (List Char)),
+    Gen.encode 129 (bitsPV [0, 1, 0, 1, 0, 1, 0, 1]) (accPV gcBalanced2) (.int 1) (.bool true) (.int 5) PV.none
+      (.bool false) (.bool false) = .ok (encResultPV (s, c)) ∧
+    Gen.decode 532 (cstr s) (.int 8) (accPV gcBalanced2) (.int 1) (.bool true) (chkPV c) PV.none
+      (.bool false) = .ok (bitsPV [0, 1, 0, 1, 0, 1, 0, 1]) :=
+  gen_C01_total_roundtrip gcBalanced2 none 1 _ true 5 129 532 false false gc_wf gc_lt (tblOK_none _) msg_bits
+    gc_good (fun _ => gc_noDeg3) (by decide) (by decide +kernel) (by decide)
+
 /-- the empty and the all-zero message are encoded as the empty strand in normal mode and decoded
 back — `C01_zero` about the generated code. -/
 theorem gen_C01_zero (a : Acc) (tbl : Option Tbl) (v : Nat) (n fuel : Nat) (vb : Bool)
@@ -337,6 +468,12 @@ theorem gen_C01_zero (a : Acc) (tbl : Option Tbl) (v : Nat) (n fuel : Nat) (vb :
     rw [h2] at this
     exact this
 
+example : Gen.encode 10 (bitsPV (List.replicate 8 0)) (accPV gcBalanced2) (.int 1) (.bool false) (.int 0)
+      PV.none (.bool false) (.bool false) = .ok (.str []) ∧
+    Gen.decode 10 (.str []) (.int 8) (accPV gcBalanced2) (.int 1) (.bool false) PV.none PV.none
+      (.bool false) = .ok (bitsPV (List.replicate 8 0)) :=
+  gen_C01_zero gcBalanced2 none 1 8 10 false gc_wf gc_lt (tblOK_none _) (by decide)
+
 /-! ## C05 — the strand is the documented mixed-radix walk -/
 
 /-- normal mode: whatever the generated `encode` returns is the walk of the published scheme
@@ -353,6 +490,14 @@ theorem gen_C05_encode_meets_spec (a : Acc) (tbl : Option Tbl) (v : Nat) (m : Li
   obtain ⟨⟨s, c⟩, he, hr⟩ := map_ok_inv h
   exact ⟨s, c, hr, C05_encode_meets_spec a tbl v m n fuel s c hm hd he⟩
 
+/-- the strand the generated `encode` returns for `01010101` (value 85) meets the specification. -/
+example : IsEncoding gcBalanced2 none 1 85 "TCTCTCT".toList := by
+  obtain ⟨s, c, hr, hs⟩ := gen_C05_encode_meets_spec gcBalanced2 none 1 _ 5 200 false _ gc_wf gc_lt
+    (tblOK_none _) msg_bits gc_distinct (by decide) gc_encode_normal
+  cases c with
+  | none => cases hr
+  | some c => cases hr; exact hs
+
 /-- the scheme determines what the generated `encode` returns: ANY strand meeting the specification
 for the message value is the strand returned (`C05_spec_unique` applied to the generated code). -/
 theorem gen_C05_spec_unique (a : Acc) (tbl : Option Tbl) (v : Nat) (m : List Nat) (n fuel : Nat)
@@ -367,6 +512,14 @@ theorem gen_C05_spec_unique (a : Acc) (tbl : Option Tbl) (v : Nat) (m : List Nat
   subst this
   exact ⟨c, hr⟩
 
+example (r : PV) (h : Gen.encode 200 (bitsPV [0, 1, 0, 1, 0, 1, 0, 1]) (accPV gcBalanced2) (.int 1) (.bool false)
+      (.int 5) PV.none (.bool false) (.bool false) = .ok r) :
+    ∃ c : Option (List Char), r = encResultPV ("TCTCTCT".toList, c) :=
+  gen_C05_spec_unique gcBalanced2 none 1 _ 5 200 false r _ gc_wf gc_lt (tblOK_none _) msg_bits gc_distinct
+    (by decide) h
+    (C05_encode_meets_spec gcBalanced2 none 1 [0, 1, 0, 1, 0, 1, 0, 1] 0 200 _ none msg_bits gc_distinct
+      (by decide +kernel))
+
 /-- the generated `decode` (normal mode, no check) of any walk returns the walk's mixed-radix value
 big-endian at width `L` — `C05_decode_value` about the generated code. -/
 theorem gen_C05_decode_value (a : Acc) (tbl : Option Tbl) (v : Nat) (s : List Char) (L fuel : Nat)
@@ -377,6 +530,12 @@ theorem gen_C05_decode_value (a : Acc) (tbl : Option Tbl) (v : Nat) (s : List Ch
   (tie_decode a tbl v s L false none fuel vb ha hv ht (fun _ h => by cases h)
     (by simp only [Option.map_none, Option.getD_none]; omega)).trans
     (by rw [C05_decode_value a tbl v s L hd hw]; rfl)
+
+example : Gen.decode 38 (cstr "TCTCTCT".toList) (.int 8) (accPV gcBalanced2) (.int 1) (.bool false) PV.none
+    PV.none (.bool false) = .ok (bitsPV (numberToBitInt (walkValue gcBalanced2 none 1 "TCTCTCT".toList) 8)) :=
+  gen_C05_decode_value gcBalanced2 none 1 _ 8 38 false gc_wf gc_lt (tblOK_none _) gc_distinct
+    (by decide +kernel) (by decide)
+example : walkValue gcBalanced2 none 1 "TCTCTCT".toList = 85 := by decide +kernel
 
 /-- fast mode: the strand the generated `encode` returns is a walk, and the bits it carries are the
 message followed by at most one padding zero — `C05_fast_meets_spec` about the generated code. -/
@@ -390,6 +549,15 @@ theorem gen_C05_fast_meets_spec (a : Acc) (tbl : Option Tbl) (v : Nat) (m : List
   rw [tie_encode a tbl v m true n fuel vb ha hv ht (isBits_le_one hm) hf] at h
   obtain ⟨⟨s, c⟩, he, hr⟩ := map_ok_inv h
   exact ⟨s, c, hr, C05_fast_meets_spec a tbl v m n fuel s c hm hd he⟩
+
+example : isWalk gcBalanced2 1 "AGAGAGAG".toList = true ∧
+    (walkBits gcBalanced2 none 1 "AGAGAGAG".toList = [0, 1, 0, 1, 0, 1, 0, 1] ∨
+      walkBits gcBalanced2 none 1 "AGAGAGAG".toList = [0, 1, 0, 1, 0, 1, 0, 1] ++ [0]) := by
+  obtain ⟨s, c, hr, hs⟩ := gen_C05_fast_meets_spec gcBalanced2 none 1 _ 5 200 false _ gc_wf gc_lt
+    (tblOK_none _) msg_bits gc_distinct (by decide) gc_encode_fast
+  cases c with
+  | none => cases hr
+  | some c => cases hr; exact hs
 
 /-- the generated `decode` in fast mode (no check) of a walk without out-degree-3 vertices whose bits
 fit returns the carried bits, zero-padded to `L` — `C05_fast_decode_value` about the generated code. -/
@@ -405,6 +573,13 @@ theorem gen_C05_fast_decode_value (a : Acc) (tbl : Option Tbl) (v : Nat) (s : Li
   (tie_decode a tbl v s L true none fuel vb ha hv ht (fun _ h => by cases h)
     (by simp only [Option.map_none, Option.getD_none]; omega)).trans
     (by rw [C05_fast_decode_value a tbl v s L hd hw h3 hL]; rfl)
+
+example : Gen.decode 42 (cstr "AGAGAGAG".toList) (.int 10) (accPV gcBalanced2) (.int 1) (.bool true) PV.none
+    PV.none (.bool false) =
+    .ok (bitsPV (walkBits gcBalanced2 none 1 "AGAGAGAG".toList ++
+      List.replicate (10 - (walkBits gcBalanced2 none 1 "AGAGAGAG".toList).length) 0)) :=
+  gen_C05_fast_decode_value gcBalanced2 none 1 _ 10 42 false gc_wf gc_lt (tblOK_none _) gc_distinct
+    (by decide +kernel) (by decide +kernel) (by decide +kernel) (by decide)
 
 /-! ## C06 — decoding accepts exactly the strands that are walks of the graph -/
 
@@ -429,6 +604,22 @@ theorem gen_C06_normal (a : Acc) (tbl : Option Tbl) (v : Nat) (s : List Char) (L
     exact ⟨bits, by rw [hb]; rfl, hl⟩
   · rw [h2 h]; rfl
 
+/-- a walk with its matching check is accepted … -/
+example : ∃ bits, Gen.decode 48 (cstr "TCTCTCT".toList) (.int 8) (accPV gcBalanced2) (.int 1) (.bool false)
+    (.str "TAAGC".toList) PV.none (.bool false) = .ok (bitsPV bits) ∧ bits.length = 8 :=
+  (gen_C06_normal gcBalanced2 none 1 _ 8 (some "TAAGC".toList) 48 false gc_wf gc_lt (tblOK_none _)
+    (by decide) (by decide)).1 ⟨by decide +kernel, by unfold CheckOk; decide +kernel⟩
+/-- … a string that leaves the graph is a `ValueError` … -/
+example : Gen.decode 38 (cstr "TCTCTAT".toList) (.int 8) (accPV gcBalanced2) (.int 1) (.bool false) PV.none
+    PV.none (.bool false) = .error .valueError :=
+  (gen_C06_normal gcBalanced2 none 1 _ 8 none 38 false gc_wf gc_lt (tblOK_none _) (by decide)
+    (by decide)).2 (fun h => absurd h.1 (by decide +kernel))
+/-- … and so is a walk with a check that does not match. -/
+example : Gen.decode 48 (cstr "TCTCTCT".toList) (.int 8) (accPV gcBalanced2) (.int 1) (.bool false)
+    (.str "GAAGC".toList) PV.none (.bool false) = .error .valueError :=
+  (gen_C06_normal gcBalanced2 none 1 _ 8 (some "GAAGC".toList) 48 false gc_wf gc_lt (tblOK_none _)
+    (by decide) (by decide)).2 (fun h => absurd h.2 (by unfold CheckOk; decide +kernel))
+
 /-- the same as an equivalence: the generated `decode` returns iff the string is a walk and the
 check matches. -/
 theorem gen_C06_normal_iff (a : Acc) (tbl : Option Tbl) (v : Nat) (s : List Char) (L : Nat)
@@ -447,6 +638,12 @@ theorem gen_C06_normal_iff (a : Acc) (tbl : Option Tbl) (v : Nat) (s : List Char
   · intro h
     obtain ⟨bits, hb, _⟩ := h1 h
     exact ⟨_, hb⟩
+
+example : (∃ x, Gen.decode 48 (cstr "TCTCTCT".toList) (.int 8) (accPV gcBalanced2) (.int 1) (.bool false)
+      (.str "TAAGC".toList) PV.none (.bool false) = .ok x) ↔
+    (isWalk gcBalanced2 1 "TCTCTCT".toList = true ∧ CheckOk "TCTCTCT".toList (some "TAAGC".toList)) :=
+  gen_C06_normal_iff gcBalanced2 none 1 _ 8 (some "TAAGC".toList) 48 false gc_wf gc_lt (tblOK_none _)
+    (by decide) (by decide)
 
 /-- fast mode (no out-degree-3 vertex reachable): the same dichotomy for every string whose walkable
 prefix carries no more bits than requested — `C06_fast` about the generated code. -/
@@ -469,6 +666,17 @@ theorem gen_C06_fast (a : Acc) (tbl : Option Tbl) (v : Nat) (s : List Char) (L :
     exact ⟨bits, by rw [hb]; rfl, hl⟩
   · rw [h2 h]; rfl
 
+example : ∃ bits, Gen.decode 52 (cstr "AGAGAGAG".toList) (.int 8) (accPV gcBalanced2) (.int 1) (.bool true)
+    (.str "AAATA".toList) PV.none (.bool false) = .ok (bitsPV bits) ∧ bits.length = 8 :=
+  (gen_C06_fast gcBalanced2 none 1 _ 8 (some "AAATA".toList) 52 false gc_wf gc_lt (tblOK_none _)
+    (by decide) gc_noDeg3 (by decide +kernel) (by decide)).1
+    ⟨by decide +kernel, by unfold CheckOk; decide +kernel⟩
+/-- the walkable prefix `AGAGA` of `AGAGATAG` carries five bits. -/
+example : Gen.decode 42 (cstr "AGAGATAG".toList) (.int 8) (accPV gcBalanced2) (.int 1) (.bool true) PV.none
+    PV.none (.bool false) = .error .valueError :=
+  (gen_C06_fast gcBalanced2 none 1 _ 8 none 42 false gc_wf gc_lt (tblOK_none _)
+    (by decide) gc_noDeg3 (by decide +kernel) (by decide)).2 (fun h => absurd h.1 (by decide +kernel))
+
 theorem gen_C06_fast_iff (a : Acc) (tbl : Option Tbl) (v : Nat) (s : List Char) (L : Nat)
     (chk : Option (List Char)) (fuel : Nat) (vb : Bool)
     (ha : a.WF) (hv : v < a.size) (ht : TblOK tbl a) (hc : ∀ c, chk = some c → c ≠ [])
@@ -488,6 +696,12 @@ theorem gen_C06_fast_iff (a : Acc) (tbl : Option Tbl) (v : Nat) (s : List Char) 
     obtain ⟨bits, hb, _⟩ := h1 h
     exact ⟨_, hb⟩
 
+example : (∃ x, Gen.decode 42 (cstr "AGAGAGAG".toList) (.int 8) (accPV gcBalanced2) (.int 1) (.bool true)
+      PV.none PV.none (.bool false) = .ok x) ↔
+    (isWalk gcBalanced2 1 "AGAGAGAG".toList = true ∧ CheckOk "AGAGAGAG".toList none) :=
+  gen_C06_fast_iff gcBalanced2 none 1 _ 8 none 42 false gc_wf gc_lt (tblOK_none _)
+    (by decide) gc_noDeg3 (by decide +kernel) (by decide)
+
 /-- which strands the generated `decode` accepts does not depend on the shuffle table —
 `C06_table_independent` about the generated code. -/
 theorem gen_C06_table_independent (a : Acc) (tbl tbl' : Option Tbl) (v : Nat) (s : List Char) (L : Nat)
@@ -503,6 +717,13 @@ theorem gen_C06_table_independent (a : Acc) (tbl tbl' : Option Tbl) (v : Nat) (s
     tie_decode a tbl' v s L false chk fuel vb ha hv ht' hc hf, toBool_map, toBool_map]
   exact C06_table_independent a tbl tbl' v s L chk
 
+example : (Gen.decode 48 (cstr "TCTCTCT".toList) (.int 8) (accPV gcBalanced2) (.int 1) (.bool false)
+      (.str "TAAGC".toList) PV.none (.bool false)).toBool =
+    (Gen.decode 48 (cstr "TCTCTCT".toList) (.int 8) (accPV gcBalanced2) (.int 1) (.bool false)
+      (.str "TAAGC".toList) (accPV gcTable) (.bool false)).toBool :=
+  gen_C06_table_independent gcBalanced2 none (some gcTable) 1 _ 8 (some "TAAGC".toList) 48 false gc_wf gc_lt
+    (tblOK_none _) gcTable_ok (by decide) (by decide)
+
 /-! ## C07 — the path check is the documented VT function and sees every substitution -/
 
 /-- length, flag symbol and digit symbols of what the generated `set_vt` returns (defined for the
@@ -514,11 +735,24 @@ theorem gen_C07_shape (s : List Char) (n fuel : Nat) (hn : 1 ≤ n) (hs : IsAcgt
   obtain ⟨c, h, hr⟩ := C07_shape s n hn hs
   exact ⟨c, by rw [tie_set_vt s n fuel hn hf, h]; rfl, hr⟩
 
+example : ∃ c, Gen.set_vt 12 (cstr "TCTCTCT".toList) (.int 5) = .ok (cstr c) ∧ c.length = 5 ∧ IsAcgt c ∧
+    c.head? = some (nucChar ((valuesOf "TCTCTCT".toList).sum % 4)) ∧
+    kmerIdx c.tail = (ascentPositions (valuesOf "TCTCTCT".toList)).sum % 4 ^ (5 - 1) :=
+  gen_C07_shape _ 5 12 (by decide) (by unfold IsAcgt; decide) (by decide)
+/-- the empty strand has the check `AAA`. -/
+example : ∃ c, Gen.set_vt 8 (cstr []) (.int 3) = .ok (cstr c) ∧ c.length = 3 ∧ IsAcgt c ∧
+    c.head? = some (nucChar ((valuesOf []).sum % 4)) ∧
+    kmerIdx c.tail = (ascentPositions (valuesOf [])).sum % 4 ^ (3 - 1) :=
+  gen_C07_shape [] 3 8 (by decide) isAcgt_nil (by decide)
+
 /-- a strand with a foreign character has no check: the generated `set_vt` raises `ValueError` —
 `C07_foreign` about the generated code (for `n ≥ 1`, the tie's contract). -/
 theorem gen_C07_foreign (s : List Char) (n fuel : Nat) (hn : 1 ≤ n) (hs : ¬ IsAcgt s) (hf : 2 * n + 2 ≤ fuel) :
     Gen.set_vt fuel (cstr s) (.int (n : Int)) = .error .valueError := by
   rw [tie_set_vt s n fuel hn hf, C07_foreign s n hs]; rfl
+
+example : Gen.set_vt 12 (cstr "TCNCT".toList) (.int 5) = .error .valueError :=
+  gen_C07_foreign _ 5 12 (by decide) (by unfold IsAcgt; decide) (by decide)
 
 /-- any single substitution changes the first symbol of the check the generated `set_vt` returns. -/
 theorem gen_C07_subst (s : List Char) (n p : Nat) (x : Char) (fuel : Nat) (hn : 1 ≤ n) (hs : IsAcgt s)
@@ -527,6 +761,12 @@ theorem gen_C07_subst (s : List Char) (n p : Nat) (x : Char) (fuel : Nat) (hn : 
       Gen.set_vt fuel (cstr (s.set p x)) (.int (n : Int)) = .ok (cstr c') ∧ c.head? ≠ c'.head? := by
   obtain ⟨c, c', h, h', hr⟩ := C07_subst s n p x hn hs hp hx hne
   exact ⟨c, c', by rw [tie_set_vt s n fuel hn hf, h]; rfl, by rw [tie_set_vt _ n fuel hn hf, h']; rfl, hr⟩
+
+/-- `TCTCTCT` → `TCTCTAT`. -/
+example : ∃ c c', Gen.set_vt 12 (cstr "TCTCTCT".toList) (.int 5) = .ok (cstr c) ∧
+    Gen.set_vt 12 (cstr ("TCTCTCT".toList.set 5 'A')) (.int 5) = .ok (cstr c') ∧ c.head? ≠ c'.head? :=
+  gen_C07_subst _ 5 5 'A' 12 (by decide) (by unfold IsAcgt; decide) (by decide) (by decide) (by decide)
+    (by decide)
 
 /-- any single insertion of C, G or T changes the first symbol of the check. -/
 theorem gen_C07_insert (s : List Char) (n p : Nat) (x : Char) (fuel : Nat) (hn : 1 ≤ n) (hs : IsAcgt s)
@@ -537,6 +777,11 @@ theorem gen_C07_insert (s : List Char) (n p : Nat) (x : Char) (fuel : Nat) (hn :
   obtain ⟨c, c', h, h', hr⟩ := C07_insert s n p x hn hs hp hx
   exact ⟨c, c', by rw [tie_set_vt s n fuel hn hf, h]; rfl, by rw [tie_set_vt _ n fuel hn hf, h']; rfl, hr⟩
 
+example : ∃ c c', Gen.set_vt 12 (cstr "TCTCTCT".toList) (.int 5) = .ok (cstr c) ∧
+    Gen.set_vt 12 (cstr ("TCTCTCT".toList.take 3 ++ ['G'] ++ "TCTCTCT".toList.drop 3)) (.int 5) = .ok (cstr c') ∧
+    c.head? ≠ c'.head? :=
+  gen_C07_insert _ 5 3 'G' 12 (by decide) (by unfold IsAcgt; decide) (by decide) (by decide) (by decide)
+
 /-- any single deletion of C, G or T changes the first symbol of the check. -/
 theorem gen_C07_delete (s : List Char) (n p : Nat) (fuel : Nat) (hn : 1 ≤ n) (hs : IsAcgt s)
     (hp : p < s.length) (hx : s[p]? = some 'C' ∨ s[p]? = some 'G' ∨ s[p]? = some 'T')
@@ -545,6 +790,10 @@ theorem gen_C07_delete (s : List Char) (n p : Nat) (fuel : Nat) (hn : 1 ≤ n) (
       Gen.set_vt fuel (cstr (s.eraseIdx p)) (.int (n : Int)) = .ok (cstr c') ∧ c.head? ≠ c'.head? := by
   obtain ⟨c, c', h, h', hr⟩ := C07_delete s n p hn hs hp hx
   exact ⟨c, c', by rw [tie_set_vt s n fuel hn hf, h]; rfl, by rw [tie_set_vt _ n fuel hn hf, h']; rfl, hr⟩
+
+example : ∃ c c', Gen.set_vt 12 (cstr "TCTCTCT".toList) (.int 5) = .ok (cstr c) ∧
+    Gen.set_vt 12 (cstr ("TCTCTCT".toList.eraseIdx 2)) (.int 5) = .ok (cstr c') ∧ c.head? ≠ c'.head? :=
+  gen_C07_delete _ 5 2 12 (by decide) (by unfold IsAcgt; decide) (by decide) (by decide) (by decide)
 
 /-- consequently the generated `decode` of any strand whose check (as the generated `set_vt` computes
 it) differs in the first symbol from the supplied one raises `ValueError`, whatever the graph,
@@ -569,6 +818,12 @@ theorem gen_C07_decode_rejects (a : Acc) (tbl : Option Tbl) (v : Nat) (s s' : Li
     (fun c0 h0 => by cases h0; exact hcne)
     (by simp only [Option.map_some, Option.getD_some, hl]; exact hf)).trans
     (by rw [C07_decode_rejects a tbl v s s' L n fast c c' hm hm' hn hne]; rfl)
+
+/-- the neighbour `TCTCTAT` of `TCTCTCT` (check `GAAGC` instead of `TAAGC`) is rejected in both modes. -/
+example (fast : Bool) : Gen.decode 48 (cstr "TCTCTAT".toList) (.int 8) (accPV gcBalanced2) (.int 1) (.bool fast)
+    (.str "TAAGC".toList) PV.none (.bool false) = .error .valueError :=
+  gen_C07_decode_rejects gcBalanced2 none 1 "TCTCTCT".toList _ 8 5 fast _ "GAAGC".toList 12 48 false gc_wf gc_lt
+    (tblOK_none _) (by decide) (by decide) gc_set_vt gc_set_vt' (by decide) (by decide)
 
 /-- C01 and C07 together, entirely about the generated code: if the generated `encode` returns the
 strand `s` with the check `c` (`vt_length = n > 0`), then the generated `decode` rejects every
@@ -602,5 +857,12 @@ theorem gen_C07_encode_subst_rejected (a : Acc) (tbl : Option Tbl) (v : Nat) (m 
       (fun c0 h0 => by cases h0; exact hcne)
       (by simp only [Option.map_some, Option.getD_some, hl, List.length_set]; exact hf')).trans
       (by rw [C07_decode_rejects a tbl v s (s.set p x) L n fast' c d' hsv hd' hn hdd]; rfl)
+
+example (fast' : Bool) (L : Nat) :
+    Gen.decode 48 (cstr ("TCTCTCT".toList.set 5 'A')) (.int (L : Int)) (accPV gcBalanced2) (.int 1) (.bool fast')
+      (.str "TAAGC".toList) PV.none (.bool true) = .error .valueError :=
+  gen_C07_encode_subst_rejected gcBalanced2 none 1 _ false fast' 5 200 48 L 5 'A' false true _ _ gc_wf gc_lt
+    (tblOK_none _) msg_bits (by decide) (by decide) gc_encode_normal (by decide) (by decide) (by decide)
+    (by decide)
 
 end Dsw.Tie
